@@ -456,6 +456,21 @@ class Unit:
         self.parts.append(("item", it))
         return it
 
+    def method(self, relpath, impl_anchor, fn):
+        """cut a single fn out of an impl block (the impl header/other methods are not emitted)"""
+        whole = cut_item(self.repo, relpath, impl_anchor)
+        ss, bo, bc = whole.fn_span(fn)
+        la, _ = whole.buf.pos(ss)
+        lb, cb = whole.buf.pos(bc)
+        lines = whole.buf.lines[la : lb + 1]
+        lines[-1] = lines[-1][: cb + 1]
+        origins = whole.buf.origins[la : lb + 1]
+        text = "\n".join(lines)
+        it = Item(relpath, f"{impl_anchor} :: fn {fn}", Buf(lines, origins), origins[0][2], hashlib.sha256(text.encode()).hexdigest())
+        self.items.append(it)
+        self.parts.append(("item", it))
+        return it
+
     def render(self, disabled=frozenset(), canaries=False, view=None):
         """-> (text, origins list per generated line (1-based index = line-1))"""
         out, org = [], []
